@@ -474,7 +474,7 @@ func raceExploration(r *ev.Run, dir string) {
 	}
 	r.Count("race.reports", n)
 	r.Extra("race_exploration", map[string]interface{}{"histories": hist, "data_race_reports": n, "pairs_first_frame_in_chained_bft": pairs,
-		"note": "informational: the handlers are started with `go` and mutate the tree without a lock; verdict-relevant only when an invariant breaks at quiescence"})
+		"note": "informational: the handlers are started with `go` and mutate the tree without a lock; verdict-relevant only when an invariant breaks at quiescence. `?` = the other access has no frame in the package (mostly the harness reading the tree at quiescence, which the detector cannot order after the handlers)"})
 }
 
 func firstLine(s string) string {
